@@ -61,7 +61,7 @@ def run(d, tier="quick"):
         if rc != 0:
             print("patch does not apply:", out); return 2
         for p in props:
-            rc, out = sh("cd /verif && DEEPDIFF_REPO=%s timeout 1800 ./check %s --tier %s %s" % (wt, p, tier, os.environ.get("SEEDED_ARGS", "")))
+            rc, out = sh("cd %s && DEEPDIFF_REPO=%s timeout 1800 ./check %s --tier %s %s" % (os.environ.get("SEEDED_VERIF", "/verif"), wt, p, tier, os.environ.get("SEEDED_ARGS", "")))
             lines = [l for l in out.splitlines() if l.startswith(("VIOLATION", "KNOWN-FINDING", "OK ", "FAIL "))]
             results[p] = {"rc": rc, "lines": [l[:300] for l in lines]}
     finally:
